@@ -311,7 +311,7 @@ type c19Call struct {
 	Err                   string
 	Panic                 string
 	CtxOK, OptsOK, ReqOK  bool // the stub handed the caller's context, options and request on to the channel
-	}
+}
 
 type c19Reg struct {
 	Service    string
